@@ -212,6 +212,43 @@ theorem mp_exit_frees_cached (p : MPool.MP) (m : Mem) (u : List Nat) (base : Int
 
 example : (MPool.atexit ⟨[3, 1], 2, 4, 5, 2, true, true⟩ { Mem.grantAll with live := 3 }).2.live = 0 := by decide
 
+/-- **The two theorems above hold for every cache size** — the size is not a constant of the model: it is the
+field `allocsize` of the pool state `p`, on which `MPool.R` puts no condition, and the pool `MPOOL(name, type, size)`
+starts from is `MPool.init size`, which satisfies `R` for every `size` (`CTASSERT(size > 0)`: 1 is allowed).  Spelled
+out: from the initial pool of any size ≥ 1, under every oracle, every malloc/free sequence (crossing the cache size
+and doubling the stack 1 → 2 → 4 … included) refines "the set of objects in use", and the exit handler then leaves
+exactly the objects in use allocated — in particular nothing that was cached is released twice or kept. -/
+theorem mp_every_size_refines (size : Nat) (_hsize : 1 ≤ size) (sz : Nat) (ops : List MpOp) (m : Mem)
+    (hc : MPool.Contracts sz (MPool.init size) [] ops m) :
+    ∃ u', mpAdmitAll [] (MPool.run sz (MPool.init size) ops m).1 = some u' ∧
+      MPool.R (MPool.run sz (MPool.init size) ops m).2.1 (MPool.run sz (MPool.init size) ops m).2.2 u' m.live ∧
+      (MPool.atexit (MPool.run sz (MPool.init size) ops m).2.1 (MPool.run sz (MPool.init size) ops m).2.2).1.stack = [] ∧
+      (MPool.atexit (MPool.run sz (MPool.init size) ops m).2.1 (MPool.run sz (MPool.init size) ops m).2.2).2.live =
+        m.live + u'.length := by
+  obtain ⟨u', ha, hr⟩ := MPool.run_ok sz ops (MPool.init size) m [] m.live (MPool.init_R size m) hc
+  have he := MPool.atexit_spec _ _ u' m.live hr
+  exact ⟨u', ha, hr, he.1, he.2.2⟩
+
+/-- cache size 1: the second `free` doubles the stack (1 → 2) and caches the object, the third (statistics just reset)
+releases its object; the two cached objects are handed out again, most recently freed first, then a new one is
+allocated -/
+example : (MPool.run 40 (MPool.init 1) [.malloc, .malloc, .malloc, .free 0, .free 1, .free 2, .malloc, .malloc, .malloc]
+    Mem.grantAll).1.map (·.2.obj) = [some 0, some 1, some 2, none, none, none, some 1, some 0, some 4] := by decide
+example : (MPool.run 40 (MPool.init 1) [.malloc, .malloc, .free 0, .free 1] Mem.grantAll).2.1.allocsize = 2 ∧
+    (MPool.run 40 (MPool.init 1) [.malloc, .malloc, .free 0, .free 1] Mem.grantAll).2.1.stack = [1, 0] ∧
+    (MPool.run 40 (MPool.init 1) [.malloc, .malloc, .free 0, .free 1] Mem.grantAll).2.2.live = 3 := by decide
+/-- … and with the doubling's request refused the object is released instead (cache stays at 1 slot) -/
+example : (MPool.run 40 (MPool.init 1) [.malloc, .malloc, .free 0, .free 1] { f := fun n _ => n != 2 }).2.1.stack = [0] ∧
+    (MPool.run 40 (MPool.init 1) [.malloc, .malloc, .free 0, .free 1] { f := fun n _ => n != 2 }).2.2.live = 1 := by decide
+example : MPool.Contracts 40 (MPool.init 1) [] [.malloc, .free 0] Mem.grantAll := by
+  refine ⟨trivial, fun u1 h1 => ⟨?_, fun _ _ => trivial⟩⟩
+  have e1 : u1 = [0] := by
+    have : mpAdmit [] .malloc (MPool.step 40 (MPool.init 1) .malloc Mem.grantAll).1 = some [0] := by decide
+    rw [this] at h1
+    exact (Option.some.inj h1).symm
+  subst e1
+  exact List.mem_cons_self
+
 /-! ## The executable: `Model.DsStep.stepOp` (what `pmodel ds` runs) is the step functions above
 
 `Driver/Ds.lean` only parses a line into a `Spec.DSMon.Op` and prints the typed `Out` of `Model.DsStep.stepOp`.
@@ -351,7 +388,8 @@ and a monitor state after `n` operations: the oracle grants nothing above 2^22 b
 satisfies `Inv` / `QInv` / `MInv` with at most 2^22 bytes allocated and the monitor holds exactly `abs` of it; both
 sides hold the same list of pool objects in use; the live blocks are accounted for (`MPool.R` with
 `base` = structure + buffer blocks of the existing containers).  `OpOk`: record lengths positive (the C `assert`s
-it), the queue's record length plus 2^22 fits `size_t`, stored pointers non-NULL and < 2^64. -/
+it), the queue's record length plus 2^22 fits `size_t`, stored pointers non-NULL and < 2^64, `mp_init` with one of the
+harness' pool sizes 1..4 (`poolSizes`; any other size is answered `bad-op`). -/
 
 /-- **One line.**  From related states, for an operation within `OpOk`, after fewer than 2^63 - 1 operations: the
 monitor *accepts* the answer the model's `stepOp` gives, and the next states are related.  Admission of the container
@@ -366,6 +404,11 @@ theorem monitor_accepts_model (n : Nat) (s : DsStep.S) (ms : Spec.DSMon.S) (h : 
 
 example : Rel 0 {} {} := rel_init
 example : OpOk (.eaInit 3 4 9) := by decide
+example : OpOk (.mpInit 2) ∧ ¬ OpOk (.mpInit 5) := by decide
+/-- `mp_init 2` after two objects were taken: the answer is `ok`, the monitor accepts it and forgets the objects -/
+example : (stepOp (runOps {} [.mpMalloc, .mpMalloc]).1 (.mpInit 2)).2.ans.head = .ok ∧
+    (stepOp (runOps {} [.mpMalloc, .mpMalloc]).1 (.mpInit 2)).1.mpSize = 2 ∧
+    (stepOp (runOps {} [.mpMalloc, .mpMalloc]).1 (.mpInit 2)).1.inUse = [] := by decide +kernel
 /-- the accepted answer is a real one (`ok sz=12 al=12 rf=0`), and a wrong size is rejected -/
 example : (stepOp {} (.eaInit 3 4 9)).2.ans.sz = some 12 ∧ (stepOp {} (.eaInit 3 4 9)).2.ans.head = .ok ∧
     (monStep {} (.eaInit 3 4 9) { (stepOp {} (.eaInit 3 4 9)).2.ans with sz := some 11 }).2 ≠ none := by
